@@ -29,14 +29,19 @@ from deep.config.tracepoint_config import TracepointConfigService, ConfigUpdateL
 class ConfigService:
     """This is the main service that handles config for DEEP."""
 
-    def __init__(self, custom: Dict[str, any] = None, tracepoints=TracepointConfigService()):
+    def __init__(self, custom: Dict[str, any] = None, tracepoints: TracepointConfigService = None):
         """
         Create a new config object.
 
         :param custom: any custom values that are passed to DEEP
+        :param tracepoints: the tracepoint config service to use (a new one by default)
         """
         if custom is None:
             custom = {}
+        if tracepoints is None:
+            # one per config object: a default in the signature would be shared by every agent of the process, so
+            # that a second agent inherits the config hash (and registrations) of one that was shut down
+            tracepoints = TracepointConfigService()
         self._plugins = []
         self.__custom = custom
         self._resource = None
